@@ -174,6 +174,8 @@ class Parser:
 
     def pre_process_data(self, data):
         data = data.decode("utf-8")
+        # CRLF line endings (escaped by now) are line breaks like LF
+        data = data.replace("\\r\\n", "\\n")
         # todo: not sure how to workaround ',' normal way
         if "input.regex" in data:
             data = self.process_regex_input(data)
